@@ -128,6 +128,25 @@ def handle (op : String) (req : Json) : Except String Json :=
         ("generate", Json.arr (targets.map (fun t => outcomeJ (fun _ => Json.null) (generateOutcome cts kinds t))).toArray),
         ("dom", Json.arr (targets.map (fun t => Json.bool (readyDom cts kinds t))).toArray)])
     | o => pure (Json.mkObj [("parse", outcomeJ (fun _ => Json.null) o)])
+  | "c17.history" => do
+    -- one API object: `contexts` = the section sets of its contexts (null: no `generate` section), `steps` = requests
+    -- ["configure", c] | ["parse", c] | ["generate", c, target]; one answer per step
+    let ctxsJ ← req.getObjValAs? (Array Json) "contexts"
+    let ctxs : List GenSet ← ctxsJ.toList.mapM (fun j => match j with
+      | .null => pure none
+      | j => do let l ← (fromJson? j : Except String (List String)); pure (some l))
+    let kinds ← (← req.getObjValAs? (List String) "kinds").mapM kindOf
+    let stepsJ ← req.getObjValAs? (Array Json) "steps"
+    let reqs : List Req ← stepsJ.toList.mapM (fun j => match j with
+      | .arr #[.str "configure", c] => do pure (Req.configure (← fromJson? c))
+      | .arr #[.str "parse", c] => do pure (Req.parse (← fromJson? c))
+      | .arr #[.str "generate", c, .str t] => do pure (Req.generate (← fromJson? c) t)
+      | _ => throw "unknown step")
+    let answers := runReqs ctxs kinds reqs {}
+    pure (Json.mkObj [("answers", Json.arr (answers.map (fun a => Json.mkObj [
+      ("outcome", match a.outcome with | some o => outcomeJ (fun _ => Json.null) o | none => Json.null),
+      ("named", match a.named with | some k => Json.str k | none => Json.null),
+      ("used", Json.arr (a.used.eraseDups.map (fun n => Json.num (JsonNumber.fromNat n))).toArray)])).toArray)])
   | "c17.spec" => do
     -- specification on the implementation's observation: merged tree handed to validation
     let o ← req.getObjVal? "o" >>= kidsOfJson
